@@ -263,3 +263,46 @@ Proof.
   pose proof (for_all_vals _ H v) as K. unfold refusal_okb in K. rewrite R in K. simpl in K.
   apply Nat.eqb_eq in K. exact K.
 Qed.
+
+(* which response is relayed when the upstream proxy rejects a CONNECT *)
+Fixpoint list_eqb_src (a c : list src) : bool :=
+  match a, c with
+  | [], [] => true
+  | x :: a', y :: c' => src_eqb x y && list_eqb_src a' c'
+  | _, _ => false
+  end.
+Lemma list_eqb_src_eq a : forall c, list_eqb_src a c = true -> a = c.
+Proof.
+  induction a as [|x a IH]; intros [|y c] H; simpl in H; try discriminate; [reflexivity|].
+  apply andb_true_iff in H as [H1 H2]. rewrite (src_eqb_eq _ _ H1), (IH c H2). reflexivity.
+Qed.
+
+Definition rejected_pre (v : val) : bool :=
+  match v_rd v with RdOk => true | _ => false end && negb (v_closing v) && negb (v_mreq_err v) && negb (v_mres_err v) &&
+  negb (st_2xx (v_st v)).
+Definition heads_if_sent (v : val) (s : src) : list src := match v_w v with WFailEarly => [] | _ => [s] end.
+Definition rejected_checkb (fl : flags) (v : val) : bool :=
+  negb (rejected_pre v) ||
+  ((negb (v_connect v && negb (v_mitm v) && match v_cn v with CnRejected => true | _ => false end)
+    || list_eqb_src (head_srcs (run_with fl v)) (heads_if_sent v SUp)) &&
+   (negb (negb (v_connect v) && match v_rt v with RtConnErr => true | _ => false end)
+    || list_eqb_src (head_srcs (run_with fl v)) (heads_if_sent v SConnErr))).
+
+Lemma rejected_check_all : forallb (fun fl => forallb (rejected_checkb fl) all_vals) all_flags = true.
+Proof. vm_compute. reflexivity. Qed.
+
+Lemma rejected_connect_sources fl v :
+  v_rd v = RdOk -> v_closing v = false -> v_mreq_err v = false -> v_mres_err v = false -> st_2xx (v_st v) = false ->
+  (v_connect v = true -> v_mitm v = false -> v_cn v = CnRejected ->
+   head_srcs (run_with fl v) = match v_w v with WFailEarly => [] | _ => [SUp] end) /\
+  (v_connect v = false -> v_rt v = RtConnErr ->
+   head_srcs (run_with fl v) = match v_w v with WFailEarly => [] | _ => [SConnErr] end).
+Proof.
+  intros R C M1 M2 S.
+  pose proof (proj1 (forallb_forall _ all_flags) rejected_check_all fl (all_flags_complete fl)) as H.
+  pose proof (for_all_vals _ H v) as K. unfold rejected_checkb, rejected_pre in K.
+  rewrite R, C, M1, M2, S in K. cbn [negb andb orb] in K. apply andb_true_iff in K as [K1 K2].
+  split.
+  - intros A B D. rewrite A, B, D in K1. cbn [negb andb orb] in K1. exact (list_eqb_src_eq _ _ K1).
+  - intros A B. rewrite A, B in K2. cbn [negb andb orb] in K2. exact (list_eqb_src_eq _ _ K2).
+Qed.
